@@ -71,23 +71,27 @@ def _strategy(draw):
     if box_kind == "box":
         opts["box"] = [edge, edge, edge]
     elif box_kind == "rect":
-        opts["box"] = [edge, edge + draw(st.sampled_from([0.5, 1.0, 2.5])), edge + draw(st.sampled_from([0.0, 1.5]))]
+        opts["box"] = [edge, round(edge + draw(st.sampled_from([0.5, 1.0, 2.5])), 2),
+                       round(edge + draw(st.sampled_from([0.0, 1.5])), 2)]
     else:
         mass = gc.total_mass(spec)
-        target = edge + draw(st.sampled_from([0.0, 0.7, 1.3]))
+        target = round(edge + draw(st.sampled_from([0.0, 0.7, 1.3])), 2)
         opts["density"] = round(mass * 1.660541 / target ** 3, 4)
     if draw(st.integers(0, 3)) == 0:
         resn = sorted({r["resname"] for mt in spec["moltypes"] for r in mt["residues"]})
         opts["build_res"] = [draw(st.sampled_from(resn))]
     if draw(st.integers(0, 2)) == 0:
-        cbox = opts.get("box") or [edge + 0.5] * 3
+        cbox = opts.get("box") or [round(edge + 0.5, 2)] * 3
         if draw(st.integers(0, 3)) == 0:
-            cbox = [edge + 1.0, edge + 1.0, edge + 2.0]      # differs from -box: the structure's box wins
+            # differs from -box: the structure's box wins
+            cbox = [round(edge + 1.0, 2), round(edge + 1.0, 2), round(edge + 2.0, 2)]
         spec["coords"] = draw(supplied_coords(spec, cbox, skip=opts.get("build_res", ())))
     if draw(st.booleans()):
         opts["grid_spacing"] = draw(st.sampled_from([0.2, 0.5, 1.0]))
     if draw(st.integers(0, 3)) == 0:
-        box = opts.get("box") or [edge] * 3
+        # the grid has to fit the box that is in effect (the input structure's box wins)
+        box = (spec["coords"]["box"] if spec.get("coords") else None) or opts.get("box") or [edge] * 3
+        box = [min(a, b) for a, b in zip(box, opts.get("box") or box)] if spec.get("coords") else box
         # distinct points of a 1 nm lattice (a grid with coinciding points cannot host all molecules)
         lattice = [[0.5 + i, 0.5 + j, 0.5 + k] for i in range(int(box[0])) for j in range(int(box[1]))
                    for k in range(int(box[2]))]
